@@ -609,8 +609,8 @@ TEXT_ASSUME = [
 
 PLANS.update({
     'C16': {
-        'quick': [A_words('w4', 4, 'full'), A_words('tok7', 7, 'token'), A_decode('dec', 1), T_depth('depth6', 6)],
-        'thorough': [A_words('w5', 5, 'full', timeout=9000), A_words('w7s', 7, 'tiny', timeout=9000), A_words('tok8', 8, 'token', timeout=9000),
+        'quick': [A_words('w4', 4, 'full'), A_words('tok6', 6, 'token', extra_opt='nodepth=1'), A_words('bad5', 5, 'badutf', extra_opt='nodepth=1'), A_decode('dec', 1), T_depth('depth6', 6)],
+        'thorough': [A_words('w5', 5, 'full', timeout=9000), A_words('w7s', 7, 'tiny', timeout=9000), A_words('tok7', 7, 'token', extra_opt='nodepth=1', timeout=9000),
                      A_decode('dec', 2), T_depth('depth7', 7)],
         'rule': 'TLC enumerates every word up to the stated length (extending viable prefixes only, so first-error words are included), checks '
                 'on the specification that the scanner automaton (Scanner.tla, a transcription of scanner.go) accepts exactly the texts of '
@@ -705,7 +705,7 @@ PLANS.update({
         'quick': [A_cli('cli3', 3)],
         'thorough': [A_cli('cli4', 4)],
         'rule': 'TLC explores the state machine of the command (parse flags, load and decode each file, read stdin, apply in order, print or '
-                'fatal) for every list of up to 3 (quick) / 4 (thorough) -p arguments over 10 kinds of file (five patches of which two do not '
+                'fatal) for every list of up to 3 (quick) / 4 (thorough) -p arguments over 11 kinds of file (six patches, one of them not idempotent; a kind named twice is the same file twice; of which two do not '
                 'commute and one fails in its second operation, the empty patch, a non-patch, malformed JSON, a missing path, a directory) x 4 '
                 'documents on stdin (one patch value and one document contain % signs), checks NoPartialOutput / OutputIsFold / FailsCleanly on the specification; every scenario is '
                 'materialised and run against the binary built from v5/cmd/json-patch: exit status, empty stdout and non-empty stderr on '
@@ -766,6 +766,7 @@ PLANS.update({
     'C04': {
         'quick': [
             A_words('w4', 4, 'full'), A_words('w4L', 4, 'full', legacy=True),
+            A_words('bad5', 5, 'badutf', extra_opt='nodepth=1'), A_words('bad5L', 5, 'badutf', extra_opt='nodepth=1', legacy=True),
             A_decode('dec', 1), A_decode('decL', 1, legacy=True),
             AP('d1', [1, 2, 5, 6, 7, 8, 9], O_EVERY, [1, 2, 8, 9], [1], 1),
             AP('d2', [5, 6], [1, 7], [1, 8], [1], 2),
@@ -777,6 +778,7 @@ PLANS.update({
         ],
         'thorough': [
             A_words('w5', 5, 'full', timeout=9000), A_words('w5L', 5, 'full', legacy=True, timeout=9000),
+            A_words('bad6', 6, 'badutf', extra_opt='nodepth=1', timeout=9000), A_words('bad6L', 6, 'badutf', extra_opt='nodepth=1', legacy=True, timeout=9000),
             A_decode('dec', 2), A_decode('decL', 2, legacy=True),
             AP('d1', S_ALL, O_EVERY, V_ALL, [1], 1, timeout=9000),
             AP('d2', [5, 6, 10], [1, 7, 11], [1, 6, 8, 9], [1, 8, 9], 2, timeout=9000),
